@@ -35,6 +35,7 @@ type Exec struct {
 	frameID int
 	top     *Frame
 	maxInline int
+	inlined   int
 }
 
 func (x *Exec) varSort(name string) string {
@@ -145,6 +146,8 @@ func (x *Exec) assumeAllocated(n *Node, st *State, t Term) {
 	}
 	cur := x.get(st, allocVar).S
 	switch types.Unalias(t.T).Underlying().(type) {
+	case *types.Struct:
+		x.assumeWF(n, t, 0)
 	case *types.Pointer, *types.Map:
 		n.assume(mkAnd(app("<", t.S, cur), app(">=", t.S, "0")))
 	case *types.Slice:
@@ -152,6 +155,40 @@ func (x *Exec) assumeAllocated(n *Node, st *State, t Term) {
 	case *types.Basic:
 		if b := types.Unalias(t.T).Underlying().(*types.Basic); b.Info()&types.IsUnsigned != 0 {
 			n.assume(app(">=", t.S, "0"))
+		}
+	}
+}
+
+// assumeWF: representation invariants of a value of a Go type (slice headers inside structs, unsigned fields).
+func (x *Exec) assumeWF(n *Node, t Term, depth int) {
+	if t.T == nil || depth > 3 {
+		return
+	}
+	switch u := types.Unalias(t.T).Underlying().(type) {
+	case *types.Slice:
+		n.assume(wfSlice(t.S))
+	case *types.Basic:
+		if u.Info()&types.IsUnsigned != 0 {
+			n.assume(app(">=", t.S, "0"))
+		}
+	case *types.Struct:
+		if isTimeTime(t.T) {
+			return
+		}
+		si := x.ss.structInfoOf(t.T)
+		for _, f := range si.fields {
+			switch f.sort {
+			case SSlice:
+				n.assume(wfSlice(app(f.acc, t.S)))
+			case SInt:
+				if isUnsigned(f.typ) {
+					n.assume(app(">=", app(f.acc, t.S), "0"))
+				}
+			default:
+				if _, ok := types.Unalias(f.typ).Underlying().(*types.Struct); ok {
+					x.assumeWF(n, Term{S: app(f.acc, t.S), Sort: f.sort, T: f.typ}, depth+1)
+				}
+			}
 		}
 	}
 }
@@ -304,6 +341,48 @@ func shortVar(name string) string {
 		return name[i+1:]
 	}
 	return name
+}
+
+// havocFresh: the heap may have gained new objects, but every object allocated before allocPre is unchanged.
+func (x *Exec) havocFresh(n *Node, st *State, name string, allocPre string) {
+	old := x.get(st, name).S
+	sort := x.varSort(name)
+	if !strings.HasPrefix(sort, "(Array Int ") {
+		x.havocVar(st, name)
+		return
+	}
+	c := x.vc.freshConst(shortVar(name)+"_f", sort)
+	n.assume(fmt.Sprintf("(forall ((r Int)) (! (=> (< r %s) (= (select %s r) (select %s r))) :pattern ((select %s r))))", allocPre, c, old, c))
+	x.set(st, name, c)
+}
+
+// havocCalleeEffects applies a callee's write set and its allocation-only effects.
+func (x *Exec) havocCalleeEffects(n *Node, st *State, callee *ssa.Function) {
+	w, f := x.prog.modSets(callee)
+	pre := x.allocNow(st)
+	for _, h := range w {
+		x.havocVar(st, h)
+	}
+	for _, h := range f {
+		x.havocFresh(n, st, h, pre)
+	}
+	x.bumpAlloc(n, st)
+}
+
+func (x *Exec) allocNow(st *State) string {
+	if _, ok := x.vc.heapSort[allocVar]; !ok {
+		x.vc.heapSort[allocVar] = SInt
+		x.vc.axiom(app(">", x.initConst(allocVar), "0"))
+	}
+	return x.get(st, allocVar).S
+}
+
+// bumpAlloc: an unknown amount of allocation happened.
+func (x *Exec) bumpAlloc(n *Node, st *State) {
+	pre := x.allocNow(st)
+	c := x.vc.freshConst("alloc_h", SInt)
+	n.assume(app(">=", c, pre))
+	x.set(st, allocVar, c)
 }
 
 func (x *Exec) havocVar(st *State, name string) {
